@@ -27,6 +27,23 @@ CHECKS = {
     "C14": ("RollUp.tla evaluated on the metrics dictionary built by the emitted dump on HFMachine with prime-valued stand-ins varying per statement and input; component facts (kind, rate, instances) from an independent reader of the architecture YAML", "3.6, 5 C14",
             EXEC_NOTE + " Instance count = the count of the level that holds the component."),
     "C16": ("HFMachine observers (activities vs updates in lock-step, point arity, stamps unique per canvas) + oracle equality of the programs with and without spacetime", "5 C16", EXEC_NOTE),
+    "C08": ("each specification compiled in fresh interpreters under N string-hash seeds and under injected random linear extensions of every flow graph (env-guarded hook); every distinct text is judged by Scope.tla and run on HFMachine.tla against the same oracle on the same inputs; determinism in one process by a two-compile history validated by SessionTrace.tla", "5 C08",
+            EXEC_NOTE + " 'All seeds' is a sample of seeds plus a superset of sort tie-breaks."),
+    "C09": ("TreeEq.tla compares, statement by statement, the tree the translator built with CPython's parse of the printed text (Printer!Canon), requires Printer!Faithful, on every compilation of the corpora and on affine expressions through CoordAccess.build_expr; PrinterGen.tla enumerates all operator trees of depth <= 2 which are printed by the real classes and re-parsed, binding the TLA+ precedence table to CPython and the printer", "3.10, 5 C09",
+            "Trusted: TLC, CPython ast, the two structural converters (harness/treeir.py, harness/hfir.py)."),
+    "C10": ("Hoist.tla: transcription of FlowGraph.__sort (any linear extension) and __hoist + order invariants, on flow graphs exported through the public IR API; conformance of the real __hoist on its own orders, on injected random linear extensions and on linear extensions chosen by TLC", "3.8, 5 C10",
+            "Trusted: TLC; dependences are the edges of the flow graph the compiler builds; the env-guarded hook only logs / substitutes the pre-hoist order."),
+    "C13": ("Fusion.tla model-checked exhaustively (OrderedPartition, NonEmptyBlocks, BlockLegal, AppendOnly); its behaviours are stepped through real Program/Hardware/Fusion objects and the recorded traces validated by FusionTrace.tla; metrics[\"blocks\"] literals of whole compilations judged by the invariants", "3.7, 5 C13",
+            "Trusted: TLC; descriptors (config, loop order, space list, bound components) are read from the generating history, not from the compiler."),
+    "C15": ("Session.tla (NoMutation, Repeatable) model-checked; its parse/compile histories replayed with the real parsers and HiFiber(...) inside one interpreter; deep digests of the five parsed objects and of the text validated by SessionTrace.tla", "3.9, 5 C15",
+            "Trusted: TLC; 'observably equal' = equal deep structural rendering of the objects' attributes."),
+    "C17": ("Syntax.tla enumerates the bounded language of the five grammars (adversarial names, spacing styles) with the structure each sentence was rendered from, and near-misses; real parser classes + independent extractor; SyntaxTrace.tla compares", "3.10, 5 C17",
+            "Trusted: TLC; the extractor is a plain walk of the lark tree; near-misses carry a written argument for non-membership (decimal numbers are not used: lark's NUMBER accepts them)."),
+    "C18": ("Legality.tla applies each of the 15 stated rules at every site of its base specifications; real parsers + HiFiber(...); LegalityTrace.tla: Compiled => Legal and the rejection is a ValueError; legal bases/neighbours guard against vacuity", "5 C18",
+            "Trusted: TLC; the renderer of abstract specifications to YAML."),
+    "C19": ("SpecSpace.tla enumerates/samples Einsums x partitionings and computes DefaultLoopOrder / declared rank order; compiled with sections omitted vs written out; Defaults.tla requires identical outcomes", "3.10, 5 C19",
+            "Trusted: TLC; the renderer; outcomes compared as digests of the emitted text."),
+
 }
 PENDING = {}
 
@@ -57,7 +74,7 @@ def main():
         "setup_cmd": "./check setup",
         "hooks": {"guard": "TEAAL_VERIF", "enable": "TEAAL_VERIF=1 (plus TEAAL_VERIF_TRACE=<file>) in the environment of the compiling process; no rebuild needed (pure Python, imported from /repo)",
                   "baseline_off_cmd": "cd /repo && env -u TEAAL_VERIF /venv/bin/python -m pytest -ra -q -p no:cacheprovider --timeout=900 --continue-on-collection-errors",
-                  "source_commits": [], "add_only": True},
+                  "source_commits": ["879aa90"], "add_only": True},
         "engines": [{"name": "tlc", "path": "/usr/local/bin/tlc", "serves_properties": sorted(CHECKS), "kind_free_text": "TLC 1.8 explicit-state model checker over the TLA+ modules in /verif/spec"}],
         "checks": checks,
         "not_applicable": na,
